@@ -2,6 +2,7 @@ import asyncio
 import inspect
 import logging
 import os
+import weakref
 from collections.abc import Awaitable, Callable, Generator
 from datetime import UTC, datetime
 from typing import TYPE_CHECKING, Annotated, Any, ClassVar, Generic, Literal, Protocol, Self, TypeAlias, cast, runtime_checkable
@@ -255,6 +256,15 @@ class BaseEvent(BaseModel, Generic[T_EventResultType]):
 
     # Completion signal
     _event_completed_signal: asyncio.Event | None = PrivateAttr(default=None)
+
+    # The parent event object (set together with event_parent_id by EventBus.dispatch()). A bounded event_history may
+    # evict a parent that is still in flight; the completion of its children must still be able to reach it.
+    _event_parent_ref: 'weakref.ref[BaseEvent[Any]] | None' = PrivateAttr(default=None)
+
+    @property
+    def event_parent(self) -> 'BaseEvent[Any] | None':
+        """The event whose handler dispatched this event, if that is known and the object is still alive"""
+        return self._event_parent_ref() if self._event_parent_ref is not None else None
 
     def __hash__(self) -> int:
         """Make events hashable using their unique event_id"""
